@@ -167,7 +167,7 @@ Definition paths_check (tolf : string -> lk_event -> bool) : bool :=
 Definition progs_check (tolf : string -> lk_event -> bool) : bool :=
   forallb (fun p => is_lifecycle (fst p) || chk_prog_tol (tolf (fst p)) (snd p)) lock_programs.
 Definition failing_paths : list string :=
-  nodup string_dec (map fst (filter (fun p => negb (is_lifecycle (fst p) || well_locked (snd p))) lock_skeletons)).
+  map fst (filter (fun s => negb (is_lifecycle (fst s) || forallb (fun x => well_locked (fst x)) (lk_paths (snd s)))) lock_segments).
 Definition failing_progs : list string :=
   map fst (filter (fun p => negb (is_lifecycle (fst p) || chk_prog (snd p))) lock_programs).
 
